@@ -1,8 +1,8 @@
 #!/verif/.venv/bin/python
 # Replay of a solver counterexample against the unmodified code (no shims).
-# property=C01 kernel=seq label=seq:inside_is_accepted
+# property=C01 kernel=slm label=slm:masked_add_is_accepted
 import sys
 sys.path[:0] = ["/repo/pulser-core", "/repo/pulser-simulation", "/verif"]
 from symx.replay import replay
-sys.exit(replay(check='checks.c01', kernel='seq', shape={'device': 'virt_reuse', 'call': 'add_dmm2', 'prior': False, 'rem': 0},
-                assignment={'amp': '0/1', 'det': -2513274126}, label='seq:inside_is_accepted'))
+sys.exit(replay(check='checks.c01', kernel='slm', shape={'order': 'mask_first', 'masked': ['q0', 'q1'], 'rem': 0},
+                assignment={'amp': '1025017207358883/140737488355328', 'dur/k': 2}, label='slm:masked_add_is_accepted'))
